@@ -18,7 +18,7 @@ func VerifWriterRoundTrip() {
 	var proof [][]byte
 	for i := 0; i < k; i++ {
 		h := rt.Bytes("h")
-		rt.Assume(string(h) != "")
+		rt.Assume(string(h) != "" && rt.LenLE(string(h), 64))
 		proof = append(proof, h)
 	}
 	cp := rt.Bytes("cp")
